@@ -2534,6 +2534,11 @@ impl Connection {
                     //   field.
                     // - Clients MUST discard Retry packets that have a Retry Integrity Tag
                     //   that cannot be validated
+                    //
+                    // Retry packets carry no packet protection, so a discarded one was never
+                    // authenticated: don't let it count, or a corrupted or forged Retry would make
+                    // us ignore the genuine Retry (or Version Negotiation) that follows.
+                    self.total_authed_packets -= 1;
                     return Ok(());
                 }
 
